@@ -577,3 +577,73 @@ pub fn reach_request_more() {
     }
     forget(r);
 }
+
+// ---------------------------------------------------------------------------------------------
+// C14: the memory-safety part of Inv must hold AT the point where a documented panic diverges
+// (a caller may catch the panic and keep using the reader). Kani ends a path at a panic, so the
+// runner injects cfg(kani) hooks: `panic_point(self)` as first statement of advance_cold, and
+// `pre_read_assert(self)` immediately before the load-bearing `assert!(n <= chunk_size)`.
+
+pub static mut G_PANIC_POINTS: usize = 0;
+
+pub fn safe_inv(r: &DeferredReader) -> bool {
+    r.pos_in_buf <= r.buf.len() && r.valid_len <= r.buf.len() - r.pos_in_buf
+}
+
+pub fn panic_point(r: &DeferredReader) {
+    unsafe {
+        G_PANIC_POINTS += 1;
+    }
+    assert!(safe_inv(r), "SafeInv at the point where advance panics");
+    // what a caller sees after catch_unwind: the exposed slice has the buffered length
+    assert!(r.buf().len() == r.valid_len);
+    unsafe {
+        assert!(G_DELIVERED >= r.valid_len, "exposes bytes never read from the source");
+    }
+}
+
+pub fn pre_read_assert(r: &DeferredReader) {
+    assert!(safe_inv(r), "SafeInv before the Read-contract assert");
+    unsafe {
+        // bytes exposed never exceed bytes delivered (an over-long claim must not be trusted)
+        if G_OVERLONG {
+            assert!(G_DELIVERED >= G_PRE_CUR + r.valid_len, "exposes bytes never read from the source");
+        }
+    }
+}
+static mut G_PRE_CUR: usize = 0;
+
+#[kani::proof]
+pub fn panic_advance_past_end() {
+    let (mut r, pre) = any_reader();
+    let n: usize = kani::any();
+    kani::assume(n > pre.valid_len);
+    r.advance(n); // documented to panic; the hook checks the state at the panic
+    assert!(false, "advance past the buffered data returned normally");
+}
+
+#[kani::proof]
+pub fn panic_advance_with_buf_past_end() {
+    let (mut r, pre) = any_reader();
+    let n: usize = kani::any();
+    kani::assume(n > pre.valid_len);
+    let _ = r.advance_with_buf(n);
+    assert!(false, "advance_with_buf past the buffered data returned normally");
+}
+
+/// A source that claims more bytes than the slice it was given (violating Read's contract).
+#[kani::proof]
+pub fn step_request_more_overlong_source() {
+    let (mut r, pre) = any_reader();
+    unsafe {
+        G_ALLOW_OVERLONG = true;
+        G_PRE_CUR = pre.cur;
+    }
+    let _ = r.request_more();
+    // only reached if no panic happened
+    unsafe {
+        assert!(!G_OVERLONG, "over-long read result was accepted");
+    }
+    check_inv(&r, &pre, 0);
+    forget(r);
+}
